@@ -37,25 +37,33 @@ TEXTS = {
                 "with the request unchanged (C03_routes_to_named_interface), InterfaceNotFound / MethodNotFound payloads, GetInfo "
                 "lists org.varlink.service first then each registered name once (Nodup + membership), "
                 "GetInterfaceDescription verbatim / InvalidParameter clauses. Correspondence on prefix-sharing name sets with "
-                "recording interfaces; P_C03 on the real replies and recorded calls.",
+                "recording interfaces; P_C03 on the real replies and recorded calls. Tie by extraction as well: "
+                "C03_names_are_source (the built-in interface name and the four standard error names are the string literals "
+                "tools/extract.d/wire.py reads from varlink/src/lib.rs on every run).",
         "design_ref": "§7 C03", "note": _WIRE_NOTE,
-        "technique": "Lean 4 proof (case analysis on routing, list lemmas) + correspondence run",
+        "technique": "Lean 4 proof (case analysis on routing, list lemmas) + correspondence run + extraction of the reply gate / names from the source text on every run",
     },
     "C04": {
         "text": "Theorem C04_no_reply_for_oneway: for every service, every script and every request with oneway:true the group "
                 "of replies is empty (built-in interface, unknown interface/method, no dot, bad parameters included); "
                 "C04_alignment: in every connection the slot of each oneway request is empty. P_C04 on the real reply stream "
-                "(no reply mentions a oneway request's token; finals never exceed non-oneway requests).",
+                "(no reply mentions a oneway request's token; finals never exceed non-oneway requests). Tie by extraction as "
+                "well: C04_gate_is_source (replyStruct / replyParameters / isOneway of the model equal the gate regenerated "
+                "from reply_struct / reply_parameters / is_oneway of the source on every run, Model/ExtractedWire.lean) and "
+                "C04_source_gate_never_writes_oneway (over the extracted expression alone).",
         "design_ref": "§7 C04", "note": _WIRE_NOTE + " Client half: Model.Client (Props/C07.lean: C04_client_oneway, C04_client_oneway_never_reads), tied by the client suite which this check also runs.",
-        "technique": "Lean 4 proof (induction over scripts and frame lists) + correspondence run",
+        "technique": "Lean 4 proof (induction over scripts and frame lists) + correspondence run + extraction of the reply gate / names from the source text on every run",
     },
     "C05": {
         "text": "Theorems: the gate (C05_gate, C05_mismatch_writes_nothing) and, for every request, every plain script of any "
                 "length and every connection, no reply with continues:true unless the request carried more:true "
                 "(C05_continues_only_for_more, C05_connection). Client half: C05_iteration over Model.Client (Props/C07.lean, induction on the number of continues replies), tied by the client suite which this check also runs. "
-                "Correspondence with scripted interfaces (gate-violating scripts included); P_C05 on real output.",
+                "Correspondence with scripted interfaces (gate-violating scripts included); P_C05 on real output. Tie by "
+                "extraction as well: C05_gate_is_source and C05_source_gate_refuses_first over the gate regenerated from "
+                "reply_struct / wants_more on every run (a continues reply without more is refused BEFORE the oneway early "
+                "return; a written reply is marked exactly when continues is set).",
         "design_ref": "§7 C05", "note": _WIRE_NOTE,
-        "technique": "Lean 4 proof (induction over action scripts) + correspondence run",
+        "technique": "Lean 4 proof (induction over action scripts) + correspondence run + extraction of the reply gate / names from the source text on every run",
     },
     "C06": {
         "text": "Theorems for every decoder (hence every way a message can be malformed), every stream and read schedule: "
